@@ -34,6 +34,12 @@ type RecBlock struct {
 	UnixNs    int64    `json:"unix_ns"`
 	Txs       []string `json:"txs"`       // base64 raw tx bytes, in order
 	Authority []string `json:"authority"` // codec JSON (Any) of authority msgs run before this block
+	// what the recording run itself computed (written after the block as a
+	// separate "result" line and merged on reading): the "live" replica
+	App     string `json:"app,omitempty"`
+	Store   string `json:"store,omitempty"`
+	Results string `json:"results,omitempty"`
+	Halt    bool   `json:"halt,omitempty"`
 }
 
 type recorder struct {
@@ -87,6 +93,10 @@ func (r *recorder) block(h int64, t time.Time, raw [][]byte) {
 	r.line(b)
 }
 
+func (r *recorder) result(h int64, app, store, results string, halt bool) {
+	r.line(RecBlock{Kind: "result", Height: h, App: app, Store: store, Results: results, Halt: halt})
+}
+
 func (r *recorder) authority(c *Chain, msg sdk.Msg) {
 	bz, err := c.App.AppCodec().MarshalInterfaceJSON(msg)
 	if err != nil {
@@ -127,6 +137,14 @@ func ReadRecording(path string) (*Recording, error) {
 		var b RecBlock
 		if err := json.Unmarshal(sc.Bytes(), &b); err != nil {
 			return nil, err
+		}
+		if b.Kind == "result" {
+			for i := range rec.Blocks {
+				if rec.Blocks[i].Height == b.Height {
+					rec.Blocks[i].App, rec.Blocks[i].Store, rec.Blocks[i].Results, rec.Blocks[i].Halt = b.App, b.Store, b.Results, b.Halt
+				}
+			}
+			continue
 		}
 		rec.Blocks = append(rec.Blocks, b)
 	}
